@@ -73,7 +73,9 @@ type ReqInfo struct {
 	timer     *manualDeadline
 	// clientGone: the script cancelled the request's context while it was queued behind a fetch
 	clientGone bool
-	saving     int // entry object this request is handing to the store
+	// waiting: registered behind a fetch and not yet released
+	waiting bool
+	saving  int // entry object this request is handing to the store
 }
 
 var inProcessServer = &http.Server{}
@@ -775,6 +777,7 @@ func (w *World) point(pt string, obj interface{}, args ...interface{}) {
 		w.mu.Lock()
 		if ri := w.reqGid[gid]; ri != nil {
 			ri.DecNow = now
+			ri.waiting = wait
 			if !wait {
 				ri.lastLabel = statusName(st)
 			}
@@ -792,6 +795,7 @@ func (w *World) point(pt string, obj interface{}, args ...interface{}) {
 	case "get.woken":
 		w.mu.Lock()
 		if ri := w.reqGid[gid]; ri != nil {
+			ri.waiting = false
 			w.emitLocked(Event{"op": "Woken", "r": ri.Rid})
 		}
 		w.mu.Unlock()
@@ -939,6 +943,11 @@ func (w *World) ClientGone(proc string) error {
 	defer w.mu.Unlock()
 	for _, ri := range w.reqs {
 		if ri.Proc == proc && ri.timer != nil {
+			if !ri.waiting {
+				// (a script that is no longer followed exactly: only the client of a queued request is taken away here --
+				// a request that is with the upstream has its own outcome for that)
+				return fmt.Errorf("%s is not queued behind a fetch", proc)
+			}
 			ri.clientGone = true
 			ri.timer.err = context.Canceled
 			ri.timer.fire()
